@@ -1,0 +1,88 @@
+//go:build verif
+
+// Contracts for contract-based deductive verification (govc, /verif).
+// This file contains comments only; it adds no code to the package.
+
+package pinning
+
+//@ # ---- assumed: addresses, the root pin key --------------------------------------------------
+//@ opaque github.com/gauss-project/aurorafs/pkg/boson.Address as Addr
+//@ extern func (github.com/gauss-project/aurorafs/pkg/boson.Address).Equal
+//@   ensures result == (a == b)
+//@   assigns nothing
+//@ extern func github.com/gauss-project/aurorafs/pkg/boson.NewAddress
+//@   assigns nothing
+//@ spec func pinKey(a boson.Address) string
+//@ func rootPinKey
+//@   trusted
+//@   ensures result == pinKey(ref)
+//@   assigns nothing
+//@ extern func github.com/gauss-project/aurorafs/pkg/sctx.SetRootHash
+//@   assigns nothing
+
+//@ # ---- assumed: the chunk store's pin counters, as a versioned function ------------------------
+//@ # pinCnt(g, a): the pin counter of chunk a in version g of the store (0: not in the pin index).
+//@ # A successful Set(ModeSetPin, a) adds one to a's counter, a successful Set(ModeSetUnpin, a)
+//@ # takes one away, a failed call and every other chunk's counter stay as they were
+//@ # (proved for the batch setPin / setUnpin build in pkg/localstore, C15 there).
+//@ ghost pinGen int
+//@ spec func pinCnt(g int, a boson.Address) int
+//@ extern func (github.com/gauss-project/aurorafs/pkg/storage.Storer).Set
+//@   requires len(addrs) == 1
+//@   assigns ghost pinGen
+//@   ensures err != nil ==> forall b boson.Address :: pinCnt(pinGen, b) == pinCnt(old(pinGen), b)
+//@   ensures forall b boson.Address :: b != addrs[0] ==> pinCnt(pinGen, b) == pinCnt(old(pinGen), b)
+//@   ensures err == nil && int(mode) == 2 ==> pinCnt(pinGen, addrs[0]) == pinCnt(old(pinGen), addrs[0]) + 1
+//@   ensures err == nil && int(mode) == 3 ==> pinCnt(pinGen, addrs[0]) == pinCnt(old(pinGen), addrs[0]) - 1
+
+//@ # ---- assumed: the traverser calls the visitor for chunks, and does nothing else --------------
+//@ extern func (github.com/gauss-project/aurorafs/pkg/traversal.Traverser).Traverse
+//@   iterates arg2
+//@   assigns nothing
+
+//@ # the visitor of CreatePin: a chunk's counter moves by at most one, upwards; a chunk that is not
+//@ # stored is passed over
+//@ func (*Service).CreatePin$1
+//@   property C15
+//@   requires s != nil && s.pinStorage != nil
+//@   assigns ghost pinGen
+//@   iterinv counters-only-grow: forall b boson.Address :: pinCnt(pinGen, b) >= pinCnt(pre(pinGen), b)
+//@   ensures only-this-chunk: forall b boson.Address :: b != leaf ==> pinCnt(pinGen, b) == pinCnt(old(pinGen), b)
+//@   ensures one-more-or-same: pinCnt(pinGen, leaf) == pinCnt(old(pinGen), leaf) + 1 || pinCnt(pinGen, leaf) == pinCnt(old(pinGen), leaf)
+
+//@ func (*Service).CreatePin
+//@   property C15
+//@   requires s != nil && s.pinStorage != nil && s.rhStorage != nil && (traverse ==> s.traverser != nil)
+//@   ensures repeating-the-pin-has-no-further-effect: old(stored(s.rhStorage, pinKey(ref))) ==> forall b boson.Address :: pinCnt(pinGen, b) == pinCnt(old(pinGen), b)
+//@   ensures listed-after-a-pin: result == nil ==> stored(s.rhStorage, pinKey(ref))
+//@   ensures never-unlists: old(stored(s.rhStorage, pinKey(ref))) ==> stored(s.rhStorage, pinKey(ref))
+//@   ensures other-references-keep-their-listing: forall k string :: k != pinKey(ref) ==> (stored(s.rhStorage, k) <==> old(stored(s.rhStorage, k)))
+//@   ensures counters-only-grow: forall b boson.Address :: pinCnt(pinGen, b) >= pinCnt(old(pinGen), b)
+
+//@ # the visitor of DeletePin: a chunk's counter moves by at most one, downwards; failures are
+//@ # remembered and make the whole unpin fail
+//@ func (*Service).DeletePin$1
+//@   property C15
+//@   requires s != nil && s.pinStorage != nil
+//@   assigns ghost pinGen, var iterErr
+//@   iterinv counters-only-shrink: forall b boson.Address :: pinCnt(pinGen, b) <= pinCnt(pre(pinGen), b)
+//@   ensures only-this-chunk: forall b boson.Address :: b != leaf ==> pinCnt(pinGen, b) == pinCnt(old(pinGen), b)
+//@   ensures one-less-or-failure-recorded: pinCnt(pinGen, leaf) == pinCnt(old(pinGen), leaf) - 1 || (pinCnt(pinGen, leaf) == pinCnt(old(pinGen), leaf) && iterErr != nil)
+//@   ensures never-stops-the-walk: result == nil
+
+//@ func (*Service).DeletePin
+//@   property C15
+//@   requires s != nil && s.pinStorage != nil && s.rhStorage != nil && s.traverser != nil
+//@   ensures repeating-the-unpin-changes-nothing: !old(stored(s.rhStorage, pinKey(ref))) ==> (forall b boson.Address :: pinCnt(pinGen, b) == pinCnt(old(pinGen), b)) && !stored(s.rhStorage, pinKey(ref))
+//@   ensures unlisted-after-an-unpin: result == nil ==> !stored(s.rhStorage, pinKey(ref))
+//@   ensures never-lists: !old(stored(s.rhStorage, pinKey(ref))) ==> !stored(s.rhStorage, pinKey(ref))
+//@   ensures other-references-keep-their-listing: forall k string :: k != pinKey(ref) ==> (stored(s.rhStorage, k) <==> old(stored(s.rhStorage, k)))
+//@   ensures counters-only-shrink: forall b boson.Address :: pinCnt(pinGen, b) <= pinCnt(old(pinGen), b)
+
+//@ # listed iff the root key holds the reference
+//@ func (*Service).HasPin
+//@   property C15
+//@   requires s != nil && s.rhStorage != nil
+//@   ensures not-listed-without-the-key: !stored(s.rhStorage, pinKey(ref)) ==> result0 == false && result1 == nil
+//@   ensures listed-with-the-key: result0 ==> stored(s.rhStorage, pinKey(ref)) && storedval(s.rhStorage, pinKey(ref), boson.Address) == ref
+//@   ensures store-untouched: forall k string :: stored(s.rhStorage, k) <==> old(stored(s.rhStorage, k))
